@@ -92,3 +92,7 @@ pub async fn spawn(config: KeysetConfig) -> watch::Receiver<Arc<KeySet>> {
     });
     rx
 }
+
+#[cfg(all(test, pendulum_project_ntpd_rs_verif))]
+#[path = "/verif/harness/ntpd/nts_key_provider.rs"]
+pub(crate) mod verif_hook;
